@@ -96,6 +96,9 @@ theorem startIfReady_ok (c : Cfg) (s : State) (id i : Nat) (b : Bool) : EffsOK (
 
 theorem hStartStage_ok (c : Cfg) (s : State) (id i r : Nat) : EffsOK (hStartStage c s id i r).flatten := by
   unfold hStartStage
+  split
+  · intro e he; simp at he
+  unfold hStartStageCore
   simp only []
   split
   · exact startIfReady_ok _ _ _ _ _
@@ -125,20 +128,31 @@ theorem processResult_ok (c : Cfg) (st : StageSt) (id i t n : Nat) (oc : Outcome
   case transient => exact effsOK_nil
   all_goals (effs_tac; try decide)
 
+theorem runTaskGuard_ok (s : State) (id i t : Nat) (txns : List Txn) (h : runTaskGuard s id i t = some txns) :
+    EffsOK txns.flatten := by
+  unfold runTaskGuard at h
+  simp only [] at h
+  (repeat' split at h) <;> simp at h <;> subst h
+  · effs_tac
+  · effs_tac; decide
+  · effs_tac; decide
+
+theorem runTaskCommit_ok (c : Cfg) (hc : NoJumpCfg c) (st : StageSt) (id i t a n : Nat) :
+    EffsOK (runTaskCommit c st id i t a n (outcomeAt (c.stage i) t n)).flatten := by
+  unfold runTaskCommit
+  split
+  · simp only []
+    split
+    · effs_tac
+    · effs_tac; exact failureStatus_ok _ _ (by decide)
+  · exact processResult_ok _ _ _ _ _ _ _ (fun tgt => outcomeAt_not_jump c hc i t _ tgt)
+
 theorem hRunTask_ok (c : Cfg) (hc : NoJumpCfg c) (s : State) (id i t a : Nat) : EffsOK (hRunTask c s id i t a).1.flatten := by
   unfold hRunTask
-  simp only []
   split
-  · effs_tac
-  · split
-    · effs_tac; decide
-    · split
-      · effs_tac; decide
-      · split
-        · split
-          · effs_tac
-          · effs_tac; exact failureStatus_ok _ _ (by decide)
-        · exact processResult_ok _ _ _ _ _ _ _ (fun tgt => outcomeAt_not_jump c hc i t _ tgt)
+  · rename_i txns hg
+    exact runTaskGuard_ok s id i t txns hg
+  · exact runTaskCommit_ok c hc _ _ _ _ _ _
 
 theorem hCompleteTask_ok (c : Cfg) (s : State) (id i t : Nat) (st : Status) : EffsOK (hCompleteTask c s id i t st).flatten := by
   unfold hCompleteTask
